@@ -200,6 +200,16 @@ def range_invalid(s):
     return bad, exc
 
 
+def path_glob_refused(pattern):
+    """does pathlib refuse the glob pattern? (file matcher `path`: "Python file name matching")"""
+    import pathlib
+    try:
+        pathlib.PurePosixPath('/a/b').match(pattern)
+        return False
+    except ValueError:
+        return True
+
+
 def candidate_strings(texts):
     """every naked token and every quoted string of the texts (for the defect models: which argument made it fail)"""
     out = []
